@@ -5,9 +5,9 @@
 
    Models: Proto/XReqModel.v (xreq_step, the generic msgq [mq G T]) and Proto/XRepModel.v
    (xrep_step).  Views: Ledger/Views.v (VXreq.view = view_xreq, VXrep.view = view_xrep). *)
-From Coq Require Import List Arith NArith Bool Lia.
+From Coq Require Import List Arith NArith Bool Lia Permutation.
 From NngV Require Import Proto.Common Proto.ReqRepBacktrace Proto.ReqModel Proto.XReqModel Proto.XRepModel
-  Ledger.Ledger Ledger.LedgerProofs Ledger.LawTac Ledger.Views.
+  Ledger.Ledger Ledger.LedgerProofs Ledger.LawTac Ledger.Views Ledger.LedgerThms.
 Import ListNotations.
 
 (* ------------------------------------------------------------------ *)
@@ -729,3 +729,146 @@ Proof. split; vm_compute; discriminate. Qed.
 
 Print Assumptions xreq_proto_law.
 Print Assumptions xrep_proto_law.
+
+(* ====================================================================== *)
+(* Part 2: after the close sequence the protocol owns nothing that its fini functions
+   do not free *)
+Lemma run_app {St} (step : St -> pop -> St * list pout) a : forall s b,
+  run step s (a ++ b) = run step (run step s a) b.
+Proof. induction a as [|o a IH]; intros s b; [reflexivity|]. cbn [app run]. apply IH. Qed.
+Lemma ops_ok_all {St} (step : St -> pop -> St * list pout) (ok : St -> pop -> Prop) ops :
+  (forall o, In o ops -> forall s, ok s o) -> forall s, ops_ok step ok s ops.
+Proof.
+  induction ops as [|o r IH]; intros H s; [exact I|]. cbn [ops_ok]. split.
+  - apply H. left. reflexivity.
+  - apply IH. intros o' Hi. apply H. right. exact Hi.
+Qed.
+
+(* ---------------- raw REQ ---------------- *)
+(* the pipes the state knows: idle on the upper write queue, with a send in flight, blocked
+   in a put on the upper read queue *)
+Definition xreq_pipes (s : xreq) : list pid :=
+  mq_getq (xq_uwq s) ++ map fst (xq_sending s) ++ map fst (mq_putq (xq_urq s)).
+(* the socket core's close sequence as the protocol sees it: every pipe the state knows gets its
+   pipe_close, every transport send still in flight fails (PSendDone p E_CLOSED, one per message
+   in flight), then the socket's own close (raw mode has no contexts) *)
+Definition xreq_close_script (s : xreq) : list pop :=
+  map PPipeClose (xreq_pipes s) ++ map (fun x => PSendDone (fst x) E_CLOSED) (xq_sending s) ++ [PSockClose].
+
+Lemma xreq_run_pclose mf l : forall s, xq_sending (run (xreq_step mf) s (map PPipeClose l)) = xq_sending s.
+Proof.
+  induction l as [|p l IH]; intros s; [reflexivity|]. cbn [map run]. rewrite IH.
+  cbn [xreq_step]. unfold urq_pipe_close. reflexivity.
+Qed.
+Lemma xreq_run_sdfail mf l : forall s, (forall x, In x (xq_sending s) -> In (fst x) l) ->
+  xq_sending (run (xreq_step mf) s (map (fun p => PSendDone p E_CLOSED) l)) = [].
+Proof.
+  induction l as [|p l IH]; intros s H.
+  - cbn [map run]. destruct (xq_sending s) as [|x r]; [reflexivity|]. destruct (H x (or_introl eq_refl)).
+  - cbn [map run]. apply IH. cbn [xreq_step]. change (negb (E_CLOSED =? 0)%N) with true. cbn [fst xq_sending].
+    intros x Hx. apply filter_In in Hx. destruct Hx as [Hx Hn].
+    destruct (H x Hx) as [E|Hi]; [|exact Hi]. subst p. rewrite N.eqb_refl in Hn. discriminate.
+Qed.
+
+Theorem xreq_close_drains : forall mf s, xreq_inv s ->
+  ops_ok (xreq_step mf) xreq_ok s (xreq_close_script s) /\
+  drained view_xreq (run (xreq_step mf) s (xreq_close_script s)).
+Proof.
+  intros mf s _. split.
+  - apply ops_ok_all. intros o Ho t. unfold xreq_close_script in Ho.
+    apply in_app_or in Ho. destruct Ho as [Ho|Ho]; [|apply in_app_or in Ho; destruct Ho as [Ho|[<-|[]]]].
+    + apply in_map_iff in Ho. destruct Ho as [p [<- _]]. exact I.
+    + apply in_map_iff in Ho. destruct Ho as [x [<- _]]. exact I.
+    + exact I.
+  - unfold xreq_close_script. rewrite !run_app.
+    set (s1 := run (xreq_step mf) s (map PPipeClose (xreq_pipes s))).
+    assert (E1 : xq_sending s1 = xq_sending s) by apply xreq_run_pclose.
+    rewrite <- E1, <- (map_map fst (fun p => PSendDone p E_CLOSED)).
+    set (s2 := run (xreq_step mf) s1 _).
+    assert (E2 : xq_sending s2 = []).
+    { apply xreq_run_sdfail. intros x Hx. apply in_map. exact Hx. }
+    cbn [run xreq_step]. unfold urq_close. cbn [fst].
+    unfold drained. cbn [view_xreq VXreq.view v_tx v_att v_held v_fini xq_uwq xq_urq xq_sending mq_q mq_putq map app].
+    split; [exact E2|]. split; [reflexivity|constructor].
+Qed.
+
+(* ---------------- raw REP ---------------- *)
+(* the pipes the state knows: the id map, the owners of queued replies, of sends in flight, of
+   blocked puts on the upper read queue *)
+Definition xrep_pipes (s : xrep) : list pid :=
+  xp_pipes s ++ map fst (xp_sendq s) ++ map fst (xp_sending s) ++ map fst (mq_putq (xp_urq s)).
+Definition xrep_close_script (s : xrep) : list pop :=
+  map PPipeClose (xrep_pipes s) ++ map (fun x => PSendDone (fst x) E_CLOSED) (xp_sending s) ++ [PSockClose].
+
+Lemma xrep_run_pclose mf l : forall s, xp_sending (run (xrep_step mf) s (map PPipeClose l)) = xp_sending s.
+Proof.
+  induction l as [|p l IH]; intros s; [reflexivity|]. cbn [map run]. rewrite IH.
+  cbn [xrep_step]. unfold urq_pipe_close. reflexivity.
+Qed.
+Lemma xrep_run_pclose_sendq mf l : forall s, (forall x, In x (xp_sendq s) -> In (fst x) l) ->
+  xp_sendq (run (xrep_step mf) s (map PPipeClose l)) = [].
+Proof.
+  induction l as [|p l IH]; intros s H.
+  - cbn [map run]. destruct (xp_sendq s) as [|x r]; [reflexivity|]. destruct (H x (or_introl eq_refl)).
+  - cbn [map run]. apply IH. cbn [xrep_step]. unfold urq_pipe_close. cbn [fst xp_sendq].
+    intros x Hx. apply filter_In in Hx. destruct Hx as [Hx Hn].
+    destruct (H x Hx) as [E|Hi]; [|exact Hi]. subst p. rewrite N.eqb_refl in Hn. discriminate.
+Qed.
+Lemma xrep_sdfail_step mf s p :
+  fst (xrep_step mf s (PSendDone p E_CLOSED))
+  = mkXrep (xp_pipes s) (xp_idle s) (xp_sendq s) (filter (fun x => negb (fst x =? p)%N) (xp_sending s))
+           (xp_urq s) (xp_ttl s) (xp_closed s).
+Proof. cbn [xrep_step]. change (negb (E_CLOSED =? 0)%N) with true. reflexivity. Qed.
+Lemma xrep_run_sdfail mf l : forall s, (forall x, In x (xp_sending s) -> In (fst x) l) ->
+  xp_sending (run (xrep_step mf) s (map (fun p => PSendDone p E_CLOSED) l)) = [].
+Proof.
+  induction l as [|p l IH]; intros s H.
+  - cbn [map run]. destruct (xp_sending s) as [|x r]; [reflexivity|]. destruct (H x (or_introl eq_refl)).
+  - cbn [map run]. apply IH. rewrite xrep_sdfail_step. cbn [xp_sending].
+    intros x Hx. apply filter_In in Hx. destruct Hx as [Hx Hn].
+    destruct (H x Hx) as [E|Hi]; [|exact Hi]. subst p. rewrite N.eqb_refl in Hn. discriminate.
+Qed.
+Lemma xrep_run_sdfail_sendq mf l : forall s,
+  xp_sendq (run (xrep_step mf) s (map (fun p => PSendDone p E_CLOSED) l)) = xp_sendq s.
+Proof.
+  induction l as [|p l IH]; intros s; [reflexivity|]. cbn [map run]. rewrite IH, xrep_sdfail_step. reflexivity.
+Qed.
+
+Theorem xrep_close_drains : forall mf s, xrep_inv s ->
+  ops_ok (xrep_step mf) xrep_ok s (xrep_close_script s) /\
+  drained view_xrep (run (xrep_step mf) s (xrep_close_script s)).
+Proof.
+  intros mf s _. split.
+  - apply ops_ok_all. intros o _ t. exact I.
+  - unfold xrep_close_script. rewrite !run_app.
+    set (s1 := run (xrep_step mf) s (map PPipeClose (xrep_pipes s))).
+    assert (E1 : xp_sending s1 = xp_sending s) by apply xrep_run_pclose.
+    rewrite <- E1, <- (map_map fst (fun p => PSendDone p E_CLOSED)).
+    set (s2 := run (xrep_step mf) s1 _).
+    assert (E2 : xp_sending s2 = []).
+    { apply xrep_run_sdfail. intros x Hx. apply in_map. exact Hx. }
+    cbn [run xrep_step]. unfold urq_close. cbn [fst].
+    unfold drained. cbn [view_xrep VXrep.view v_tx v_att v_held v_fini xp_sendq xp_urq xp_sending mq_q mq_putq map].
+    split; [exact E2|]. split; [reflexivity|]. rewrite !app_nil_r. apply Permutation_refl.
+Qed.
+(* moreover the per-pipe send queues are empty by then (every pipe owning a queued reply got its
+   pipe_close): nothing at all is left in a protocol slot, v_fini lists nothing *)
+Theorem xrep_close_empties : forall mf s,
+  v_held view_xrep (run (xrep_step mf) s (xrep_close_script s)) = [] /\
+  v_fini view_xrep (run (xrep_step mf) s (xrep_close_script s)) = [].
+Proof.
+  intros mf s. unfold xrep_close_script. rewrite !run_app.
+  set (s1 := run (xrep_step mf) s (map PPipeClose (xrep_pipes s))).
+  assert (Q1 : xp_sendq s1 = []).
+  { apply xrep_run_pclose_sendq. intros x Hx. unfold xrep_pipes. apply in_or_app. right. apply in_or_app. left.
+    apply in_map. exact Hx. }
+  rewrite <- (map_map fst (fun p => PSendDone p E_CLOSED)).
+  set (s2 := run (xrep_step mf) s1 _).
+  assert (Q2 : xp_sendq s2 = []) by (unfold s2; rewrite xrep_run_sdfail_sendq; exact Q1).
+  cbn [run xrep_step]. unfold urq_close. cbn [fst].
+  cbn [view_xrep VXrep.view v_held v_fini xp_sendq xp_urq mq_q mq_putq map]. rewrite Q2. split; reflexivity.
+Qed.
+
+Print Assumptions xreq_close_drains.
+Print Assumptions xrep_close_drains.
+Print Assumptions xrep_close_empties.
